@@ -642,12 +642,12 @@ func extMutexLock(mode string) externalFn {
 		ls := fr.i.lockOf(args[0])
 		if mode == "w" {
 			if ls.writers > 0 || ls.readers > 0 {
-				panic(targetPanic{rtError("deadlock: Lock of a mutex already held by this (only) thread")})
+				panic(targetPanic{v: rtError("deadlock: Lock of a mutex already held by this (only) thread")})
 			}
 			ls.writers++
 		} else {
 			if ls.writers > 0 {
-				panic(targetPanic{rtError("deadlock: RLock of a mutex write-held by this (only) thread")})
+				panic(targetPanic{v: rtError("deadlock: RLock of a mutex write-held by this (only) thread")})
 			}
 			ls.readers++
 		}
@@ -663,12 +663,12 @@ func extMutexUnlock(mode string) externalFn {
 		ls := fr.i.lockOf(args[0])
 		if mode == "w" {
 			if ls.writers == 0 {
-				panic(targetPanic{rtError("sync: unlock of unlocked mutex")})
+				panic(targetPanic{v: rtError("sync: unlock of unlocked mutex")})
 			}
 			ls.writers--
 		} else {
 			if ls.readers == 0 {
-				panic(targetPanic{rtError("sync: RUnlock of unlocked RWMutex")})
+				panic(targetPanic{v: rtError("sync: RUnlock of unlocked RWMutex")})
 			}
 			ls.readers--
 		}
@@ -802,6 +802,8 @@ func fmtValue(i *interpreter, v value, verb byte) symstr {
 		return toSymstr(strconv.FormatFloat(v, 'g', -1, 64))
 	case symv:
 		return toSymstr("<sym>")
+	case opaqstr:
+		return toSymstr("<" + v.tag + ">")
 	case cpusetv:
 		return toSymstr("<cpuset>")
 	case []value:
